@@ -22,6 +22,8 @@ enum Family {
     ChainClass { n: usize },
     /// (xy){n}z
     ChainGroup { n: usize },
+    /// n keywords k0000 .. sharing their first character (one state with n transitions on one class)
+    Numbered { n: usize },
 }
 
 fn family_of(v: &Value) -> Option<Family> {
@@ -37,6 +39,7 @@ fn family_of(v: &Value) -> Option<Family> {
         "chain_x" => Family::ChainX { n: n("n")? },
         "chain_class" => Family::ChainClass { n: n("n")? },
         "chain_group" => Family::ChainGroup { n: n("n")? },
+        "numbered" => Family::Numbered { n: n("n")? },
         _ => return None,
     })
 }
@@ -50,6 +53,7 @@ fn family_json(f: &Family) -> Value {
         Family::ChainX { n } => json!({"kind": "chain_x", "n": n}),
         Family::ChainClass { n } => json!({"kind": "chain_class", "n": n}),
         Family::ChainGroup { n } => json!({"kind": "chain_group", "n": n}),
+        Family::Numbered { n } => json!({"kind": "numbered", "n": n}),
     }
 }
 
@@ -129,6 +133,28 @@ fn instance(f: &Family) -> (Vec<scnr::Pattern>, Vec<(String, Vec<Tok>)>) {
             }
             (pats, probes)
         }
+        Family::Numbered { n } => {
+            let width = 5;
+            let kw = |i: usize| format!("k{:0w$}", i, w = width);
+            let pats = (0..*n).map(|i| scnr::Pattern::new(kw(i), i + 10)).collect();
+            let mut idx: Vec<usize> = vec![0, 1, n / 2, n - 1, n - 2];
+            for i in [255usize, 256, 1023, 1024, 1025, 2047, 2048, 4095, 4096] {
+                if i < *n {
+                    idx.push(i);
+                }
+            }
+            let mut input = String::new();
+            let mut exp = Vec::new();
+            for i in idx {
+                let s = input.len();
+                input.push_str(&kw(i));
+                exp.push(Tok { tt: i + 10, start: s, end: input.len() });
+                input.push(' ');
+            }
+            // a keyword that is not in the list: nothing matches inside it
+            input.push_str(&kw(*n + 7));
+            (pats, vec![(input, exp)])
+        }
         Family::ChainX { n } | Family::ChainClass { n } | Family::ChainGroup { n } => {
             let (pat, unit, last): (String, &str, char) = match f {
                 Family::ChainX { .. } => (format!("x{{{}}}y", n), "x", 'y'),
@@ -166,7 +192,7 @@ impl Check for C17 {
         "C17"
     }
     fn rule(&self) -> &'static str {
-        "case = instance of a parametrised family: K single-character patterns with distinct sparse token types (K up to 70 000), all 2^L keywords over {a,b} sharing prefixes plus [ab]+, chains x{N}y, [ab]{N}c, (xy){N}z; probes: for lists the characters at indices 0, 1, K/2, 32 767, 32 768, 65 534..65 537, K-1 and pseudo-random ones with skipped foreign characters in between; for chains the accepted word of exact length, one unit shorter, 2^16 units shorter, one unit longer; oracle = closed form of the longest-match / first-listed rule for the family; build may return Err (then nothing else is required), a panic or a different token stream is a violation; quick = 16 generated instances of 1 000-16 000 states; thorough = additionally fixed instances crossing 65 535 states (lists with K = 65 534, 65 537, 66 000, 70 000 and the chain x{66000}y); non-trivial = instance whose unminimized automaton (feature-gated recorder) has > 1 000 states (quick) / > 65 535 states (thorough fixed instances)"
+        "case = instance of a parametrised family: K single-character patterns with distinct sparse token types (K up to 70 000), all 2^L keywords over {a,b} sharing prefixes plus [ab]+, n numbered keywords k00000.. sharing their first character (fixed: 300, 1 100, 2 100; 2^10 keywords), chains x{N}y, [ab]{N}c, (xy){N}z; probes: for lists the characters at indices 0, 1, K/2, 32 767, 32 768, 65 534..65 537, K-1 and pseudo-random ones with skipped foreign characters in between; for chains the accepted word of exact length, one unit shorter, 2^16 units shorter, one unit longer; oracle = closed form of the longest-match / first-listed rule for the family; build may return Err (then nothing else is required), a panic or a different token stream is a violation; quick = 16 generated instances of 1 000-16 000 states; thorough = additionally fixed instances crossing 65 535 states (lists with K = 65 534, 65 537, 66 000, 70 000 and the chain x{66000}y); non-trivial = instance whose unminimized automaton (feature-gated recorder) has > 1 000 states (quick) / > 65 535 states (thorough fixed instances)"
     }
     fn cases(&self, thorough: bool) -> usize {
         if thorough {
@@ -186,6 +212,12 @@ impl Check for C17 {
             case_of(&Family::ChainX { n: 5 }),
             case_of(&Family::ChainClass { n: 6 }),
             case_of(&Family::ChainGroup { n: 4 }),
+            case_of(&Family::Numbered { n: 30 }),
+            // thresholds in the number of patterns / transitions of one state: 256, 1024, 2048
+            case_of(&Family::Numbered { n: 300 }),
+            case_of(&Family::Numbered { n: 1100 }),
+            case_of(&Family::Numbered { n: 2100 }),
+            case_of(&Family::Keywords { len: 10 }),
         ];
         if thorough {
             v.push(case_of(&Family::ChainX { n: 66_000 }));
@@ -198,7 +230,10 @@ impl Check for C17 {
     }
     fn generate(&self, d: &mut Dec, thorough: bool) -> Case {
         let scale = if thorough { 2 } else { 1 };
-        let f = match d.below(5) {
+        let f = match d.below(6) {
+            5 => Family::Numbered {
+                n: 200 + d.below(2_500 * scale),
+            },
             0 => Family::List {
                 k: 1_000 + d.below(15_000 * scale),
                 base: *d.pick(&[0x100usize, 0x4E00, 0x10000 - 0x800, 0xD7F0]),
@@ -235,6 +270,7 @@ impl Check for C17 {
             Family::ChainX { n } | Family::ChainClass { n } | Family::ChainGroup { n } if *n < 2 => {
                 return Ok(discard("discard_shape"))
             }
+            Family::Numbered { n } if *n < 3 || *n > 90_000 => return Ok(discard("discard_shape")),
             _ => {}
         }
         let (pats, probes) = instance(&f);
